@@ -849,12 +849,20 @@ func (c *Client) peekPacket() (head byte, err error) {
 		}
 
 		lastN := c.bufr.Buffered()
-		c.peek, err = c.bufr.Peek(size)
+		// A Peek beyond the buffer size returns whatever is buffered
+		// with ErrBufferFull. Read errors, including timeouts, are not
+		// reported then, and the buffer may be far from full.
+		n := min(size, c.bufr.Size())
+		c.peek, err = c.bufr.Peek(n)
 		switch {
-		case err == nil: // OK
-			return head, err
-		case head>>4 == typePUBLISH && errors.Is(err, bufio.ErrBufferFull):
+		case err != nil:
+			break
+		case n == size: // OK
+			return head, nil
+		case head>>4 == typePUBLISH: // buffer full
 			return head, &BigMessage{Client: c, Size: size}
+		default:
+			err = bufio.ErrBufferFull
 		}
 
 		// Allow deadline expiry if at least one byte was transferred.
